@@ -6,7 +6,9 @@ fn main() {
         eprintln!("usage: corr <component> <seed> <n> <outdir> [replay]");
         std::process::exit(2);
     }
-    std::panic::set_hook(Box::new(|_| {}));
+    if std::env::var("VERIF_PANIC_TRACE").is_err() {
+        std::panic::set_hook(Box::new(|_| {}));
+    }
     let seed: u64 = a[2].parse().unwrap();
     let n: usize = a[3].parse().unwrap();
     let replay: Option<Vec<String>> = a.get(5).map(|p| {
@@ -21,6 +23,17 @@ fn main() {
         "C27" => c27::run(seed, n, replay, &mut out),
         "C32" => c32::run(seed, n, replay, &mut out),
         "C04" => c04::run(seed, n, replay, &mut out),
+        "C12" => c12::run(seed, n, replay, &mut out),
+        "C11" => c11::run(seed, n, replay, &mut out),
+        "C14" => c14::run(seed, n, replay, &mut out),
+        "C23" => c23::run(seed, n, replay, &mut out),
+        "C24" => c24::run(seed, n, replay, &mut out),
+        "C26" => c26::run(seed, n, replay, &mut out),
+        "C20" => c20::run(seed, n, replay, &mut out),
+        "C21" => c21::run(seed, n, replay, &mut out),
+        "C15" | "statedb" => c15::run(seed, n, replay, &mut out),
+        "C19" | "prestate" => c19::run(seed, n, replay, &mut out),
+        "bundle" => bundle::run(seed, n, replay, &mut out),
         other => {
             eprintln!("unknown component {other}");
             std::process::exit(2);
